@@ -3,6 +3,7 @@
 package nathole
 
 import (
+	"bytes"
 	"context"
 	"net"
 	"slices"
@@ -388,5 +389,28 @@ func verif_waitDetectMessage(ctx context.Context, conn *net.UDPConn, sid string,
 		verif.Ensures(raddr == verif.NthRet[*net.UDPAddr](evRead, verif.CallCount(evRead)-1, 1), "reported_peer_is_the_source_of_that_datagram")
 	} else {
 		verif.Ensures(raddr == nil, "no_peer_on_error")
+	}
+}
+
+// The NAT-hole datagram codec (C17 "total, bounded": a datagram from anybody on
+// the internet): a datagram is first decrypted with the session key, and what
+// comes out goes through the one registered, length- and type-checked frame
+// codec (msg.ReadMsgInto over exactly the decrypted bytes) - never through a
+// decoder that skips the frame checks; a decryption failure is an error and
+// nothing is decoded; no input panics (nopanic obligations of this unit).
+//
+//verif:contract ~/pkg/nathole.DecodeMessageInto
+//verif:props C17 C20
+func verif_DecodeMessageInto(data, key []byte, m msg.Message) {
+	verif.ResetEvents()
+	err := DecodeMessageInto(data, key, m)
+	const evDecrypt, evFrame = "golib/crypto.Decode", "msg.ReadMsgInto"
+	verif.Ensures(verif.CalledWith(evDecrypt, 1, key), "decrypted_with_the_session_key")
+	if verif.RetErr(evDecrypt, 1) != nil {
+		verif.Ensures(err != nil && !verif.Called(evFrame) && !verif.Called("json.Unmarshal"), "undecryptable_datagram_is_an_error_and_nothing_is_decoded")
+	} else {
+		verif.Ensures(verif.CallCount(evFrame) == 1 && err == verif.RetErr(evFrame, 0) && verif.Same(verif.NthArg[any](evFrame, 0, 1), any(m)), "decoded_by_the_checked_frame_codec_only")
+		verif.Ensures(verif.CalledWith("bytes.NewReader", 0, verif.Ret[[]byte](evDecrypt, 0)) && verif.Same(verif.NthArg[any](evFrame, 0, 0), any(verif.Ret[*bytes.Reader]("bytes.NewReader", 0))), "frame_read_from_exactly_the_decrypted_bytes")
+		verif.Ensures(!verif.Called("json.Unmarshal"), "no_decoder_that_skips_the_frame_checks")
 	}
 }
